@@ -18,6 +18,11 @@ macro_rules! hdr_total {
             if let Ok((t, h)) = &r {
                 // contract used by every caller: `&tail[hdr.length..]` / `&i[..h.length]`
                 assert!(h.length <= t.len(), "hdr_length_within_tail");
+                // C16: the length is the DECLARED one (reference reading of the length octets), not a wrapped/truncated one
+                if let Some((hl, declared)) = spec_header(&b) {
+                    assert!(b.len() - t.len() == hl, "hdr_consumes_exactly_the_header");
+                    assert!(h.length as u128 == declared, "hdr_length_is_declared_length");
+                }
                 assert!(t.len() + 2 <= b.len(), "hdr_consumes_at_least_two");
                 hdr_total!(@covers $n, b, t, h);
                 kani::cover!(true, "accepted");
@@ -35,6 +40,8 @@ hdr_total!(hdr_total_3, 3);
 hdr_total!(hdr_total_5, 5);
 //@ C01,C16 quick | BerHeader::from_ber on every byte string of length 8
 hdr_total!(hdr_total_8, 8);
+//@ C01,C16 quick | BerHeader::from_ber on every byte string of length 12 (up to 9 length octets)
+hdr_total!(hdr_total_12, 12);
 //@ C01,C16 thorough | BerHeader::from_ber on every byte string of length 16
 hdr_total!(hdr_total_16, 16);
 //@ C01,C16 thorough | BerHeader::from_ber on every byte string of length 24
